@@ -41,6 +41,11 @@ TEXT = {
         "note": "Trusted: Lean kernel, correspondence harness, V8 as reference parser (with one cross-checked V8 bug). One recorded known finding (`await` identifier in scripts).",
         "technique": "Lean 4 proof on hand-written model + differential correspondence; V8 accept/reject + idempotence search",
     },
+    "C09": {
+        "level": "Lean theorems: (1) over the option-field lists REGENERATED from the source on every run, every field the JS/CSS parser reads is distinguished by the cache key's Equal (decide over the extracted lists); (2) for every request history the AST cache returns exactly a fresh parse, given (1). Equivalence of whole rebuilds with fresh builds over edit histories is a search.",
+        "note": "Trusted: Lean kernel, the go/ast extractor, the abstraction of the cache as (source, options) -> AST. Watch mode is not covered by a theorem.",
+        "technique": "Lean 4 proof over regenerated facts (translator route) + rebuild-vs-fresh-build history search",
+    },
 }
 
 _pending = "check not built yet in this session (work in progress; the Lean-proof technique does apply — see DESIGN.md §4)"
